@@ -19,6 +19,12 @@ def run(chk, tier):
         spec_group.check_iterators(chk, lib, limit=None if tier == "thorough" else 6)
         # the cursor rows that jump to the block end
         spec_cursor.check(chk, lib, limit_per_row=4 if tier == "quick" else 20)
+    # visiting: the checking visitor charges every entry the *wire* blockLength of the group being traversed (stored by
+    # on_group from the group's own header, restored when it returns - on every path) and every level its own
+    import spec_checked
+    vlib = lib_for("vlayout", "c++17", asserts=False)
+    spec_checked.check_shapes(chk, vlib)
+    spec_checked.check_block_length_state(chk, vlib)
     import gflow
     gflow.check_block_length_flow(chk)
     # which cursor primitive the generated accessor of each member forwards to: the last non-constant field of a block
